@@ -1,5 +1,14 @@
 import FGVerif.Driver.Shared
-/-! driver operations for C12 (stub: replaced by the property's own driver) -/
+import FGVerif.Model.C12
+/-! driver operations for C12 (base version) -/
 namespace C12
-def handle : List SExp → Option SExp := fun _ => none
+open SExp
+
+/-- `(addh <graph> [impl])` → the completed graph in wire form -/
+def handle : List SExp → Option SExp
+  | .atom "addh" :: g :: _rest => do
+      let g ← asGraph g
+      pure (.list [.atom "ok", ofGraph (addImplicitHydrogens g), ofBool true, none'])
+  | _ => none
+
 end C12
